@@ -803,4 +803,53 @@ theorem pvsN_between_hs_real {f e0 eps : ℝ} (h0 : 0 < e0) (he : 0 < eps) (hf0 
         mul_nonpos_of_nonneg_of_nonpos (by positivity) hcube
       linarith
 
+/-- **Maxwell Garnett (spheres) of two passive media is passive**: `Im ε_eff ≥ 0` whenever both constituents have a positive real part
+    and a non-negative imaginary part, for every fractional volume in `[0, 1]` -/
+theorem mgSpheres_im_nonneg (f a b c d : ℝ) (hf0 : 0 ≤ f) (hf1 : f ≤ 1) (ha : 0 < a) (hc : 0 < c) (hb : 0 ≤ b) (hd : 0 ≤ d) :
+    0 ≤ (mgSpheres f ⟨a, b⟩ ⟨c, d⟩).im := by
+  have hDr : 0 < (1 - f) * c + (2 + f) * a := by nlinarith
+  have hden : 0 < ((1 - f) * c + (2 + f) * a) ^ 2 + ((1 - f) * d + (2 + f) * b) ^ 2 := by positivity
+  have key : (mgSpheres f ⟨a, b⟩ ⟨c, d⟩).im
+      = (9 * a ^ 2 * d * f + b ^ 3 * (2 * (1 - f) * (2 + f)) + b ^ 2 * d * (4 + f + 4 * f ^ 2)
+          + b * (a ^ 2 * (2 * (1 - f) * (2 + f)) + 4 * a * c * (1 - f) ^ 2 + c ^ 2 * ((1 - f) * (1 + 2 * f)) + d ^ 2 * ((1 - f) * (1 + 2 * f))))
+        / (((1 - f) * c + (2 + f) * a) ^ 2 + ((1 - f) * d + (2 + f) * b) ^ 2) := by
+    show (Cx.mul (Cx.div (Cx.add (Cx.add ⟨c, d⟩ (Cx.smul 2 ⟨a, b⟩)) (Cx.smul 2 (Cx.smul f (Cx.sub ⟨c, d⟩ ⟨a, b⟩))))
+        (Cx.sub (Cx.add ⟨c, d⟩ (Cx.smul 2 ⟨a, b⟩)) (Cx.smul f (Cx.sub ⟨c, d⟩ ⟨a, b⟩)))) ⟨a, b⟩).im = _
+    simp only [Cx.mul, Cx.div, Cx.add, Cx.sub, Cx.smul]
+    have hden' : (c + 2 * a - f * (c - a)) * (c + 2 * a - f * (c - a)) + (d + 2 * b - f * (d - b)) * (d + 2 * b - f * (d - b))
+        = ((1 - f) * c + (2 + f) * a) ^ 2 + ((1 - f) * d + (2 + f) * b) ^ 2 := by ring
+    rw [hden']
+    field_simp
+    ring
+  rw [key]
+  apply div_nonneg _ hden.le
+  have h1f : 0 ≤ 1 - f := by linarith
+  positivity
+
+theorem mgSpheres_re_pos (f a b c d : ℝ) (hf0 : 0 ≤ f) (hf1 : f ≤ 1) (ha : 0 < a) (hc : 0 < c) (hb : 0 ≤ b) (hd : 0 ≤ d) :
+    0 < (mgSpheres f ⟨a, b⟩ ⟨c, d⟩).re := by
+  have hDr : 0 < (1 - f) * c + (2 + f) * a := by nlinarith
+  have hden : 0 < ((1 - f) * c + (2 + f) * a) ^ 2 + ((1 - f) * d + (2 + f) * b) ^ 2 := by positivity
+  have key : (mgSpheres f ⟨a, b⟩ ⟨c, d⟩).re
+      = (a ^ 3 * (2 * (1 - f) * (2 + f)) + a ^ 2 * c * (4 + f + 4 * f ^ 2)
+          + a * (b ^ 2 * (2 * (1 - f) * (2 + f)) + 4 * b * d * (1 - f) ^ 2 + c ^ 2 * ((1 - f) * (1 + 2 * f)) + d ^ 2 * ((1 - f) * (1 + 2 * f)))
+          + 9 * b ^ 2 * c * f)
+        / (((1 - f) * c + (2 + f) * a) ^ 2 + ((1 - f) * d + (2 + f) * b) ^ 2) := by
+    show (Cx.mul (Cx.div (Cx.add (Cx.add ⟨c, d⟩ (Cx.smul 2 ⟨a, b⟩)) (Cx.smul 2 (Cx.smul f (Cx.sub ⟨c, d⟩ ⟨a, b⟩))))
+        (Cx.sub (Cx.add ⟨c, d⟩ (Cx.smul 2 ⟨a, b⟩)) (Cx.smul f (Cx.sub ⟨c, d⟩ ⟨a, b⟩)))) ⟨a, b⟩).re = _
+    simp only [Cx.mul, Cx.div, Cx.add, Cx.sub, Cx.smul]
+    have hden' : (c + 2 * a - f * (c - a)) * (c + 2 * a - f * (c - a)) + (d + 2 * b - f * (d - b)) * (d + 2 * b - f * (d - b))
+        = ((1 - f) * c + (2 + f) * a) ^ 2 + ((1 - f) * d + (2 + f) * b) ^ 2 := by ring
+    rw [hden']
+    field_simp
+    ring
+  rw [key]
+  apply div_pos _ hden
+  have h1f : 0 ≤ 1 - f := by linarith
+  have t2 : 0 < a ^ 2 * c * (4 + f + 4 * f ^ 2) := by positivity
+  have t1 : 0 ≤ a ^ 3 * (2 * (1 - f) * (2 + f)) := by positivity
+  have t3 : 0 ≤ a * (b ^ 2 * (2 * (1 - f) * (2 + f)) + 4 * b * d * (1 - f) ^ 2 + c ^ 2 * ((1 - f) * (1 + 2 * f)) + d ^ 2 * ((1 - f) * (1 + 2 * f))) := by positivity
+  have t4 : 0 ≤ 9 * b ^ 2 * c * f := by positivity
+  linarith
+
 end Smrt.Mixing
